@@ -58,6 +58,7 @@ class Box:
         self.toggled = False
         self.filters = False
         self.stale = False        # a blocking get(timeout)/put(timeout) of the message-queue API timed out earlier
+        self.cause = None         # first point where the two-queue implementation of permanent receivers can leave the statement
 
 
 def _accepts(a, b):
@@ -108,11 +109,8 @@ def replay(out, prop):
     def context(b, g=None, exp=None):
         if b.name.startswith("q"):
             return "after-timeout" if b.stale else "plain"
-        if g is not None and exp is not None and b.toggled:
-            if g.posted_permanent and not exp.eager:
-                return "permanent:older-send-queued-before-set_receiver"
-            if not g.posted_permanent and exp.eager:
-                return "permanent:eager-send-stranded-after-unset"
+        if b.cause:
+            return b.cause
         if b.toggled:
             return "permanent"
         if b.filters:
@@ -270,6 +268,12 @@ def replay(out, prop):
                     res.count("gets_issued")
                     queue, mine = b.sends, b.recvs
                 cands = [o for o in queue if _accepts(hd, hs[o]) and _accepts(hs[o], hd)]
+                if hd.kind == "get" and cands and b.toggled and b.cause is None:
+                    # classification only: the root of a later divergence on a mailbox whose permanent receiver was switched
+                    if b.permanent and not hs[cands[0]].eager and any(hs[o].eager for o in queue):
+                        b.cause = "permanent:older-send-queued-before-set_receiver"
+                    elif not b.permanent and hs[cands[0]].eager:
+                        b.cause = "permanent:eager-send-stranded-after-unset"
                 if cands:
                     o = cands[0]
                     if len(cands) >= 2:
